@@ -146,9 +146,15 @@ EXPORT errno_t _wcsncat_s_chk(wchar_t *restrict dest, rsize_t dmax,
     if (unlikely(slen == 0)) {
         /* Special case, analog to msvcrt: when dest is big enough
            return EOK, but clear dest. */
-        errno_t error = (wcsnlen_s(dest, dmax) < dmax) ? EOK : ESZEROL;
-        handle_werror(dest, dmax, "wcsncat_s: slen is 0", error);
-        return RCNEGATE(error);
+        rsize_t len = wcsnlen_s(dest, dmax);
+        if (len < dmax) { /* nothing to append: clear the rest of dest */
+#ifdef SAFECLIB_STR_NULL_SLACK
+            memset(&dest[len], 0, (dmax - len) * sizeof(wchar_t));
+#endif
+            return RCNEGATE(EOK);
+        }
+        handle_werror(dest, dmax, "wcsncat_s: slen is 0", ESZEROL);
+        return RCNEGATE(ESZEROL);
     }
 
     /* hold base of dest in case src was not copied */
